@@ -15,7 +15,16 @@ PQ_SPEC = [("isortkey", "desc"), ("key", "asc")]
 
 def _assumed(trace, pattern, truth=True, upto=None):
     t = trace if upto is None else trace[:upto]
-    return any(e[0] == "assume" and e[2] == truth and re.fullmatch(pattern, e[1]) for e in t)
+    if any(e[0] == "assume" and e[2] == truth and re.fullmatch(pattern, e[1]) for e in t):
+        return True
+    # the complementary spelling with the opposite outcome is the same fact
+    if " == " in pattern:
+        comp = pattern.replace(" == ", " != ")
+        return any(e[0] == "assume" and e[2] == (not truth) and re.fullmatch(comp, e[1]) for e in t)
+    if " != " in pattern:
+        comp = pattern.replace(" != ", " == ")
+        return any(e[0] == "assume" and e[2] == (not truth) and re.fullmatch(comp, e[1]) for e in t)
+    return False
 
 
 def rules(rep, m):
@@ -324,6 +333,9 @@ def rules(rep, m):
         f = m.need(qn)
         cx = FuncCtx(m, f)
         rv = [cx.canon(kids(x)[0]) for x in walk(f.body) if x["kind"] == "ReturnStmt"]
+        # a space query may go through the length query of its own class (judged in this same loop)
+        for ln, lw in (("cmb_objectqueue_length", "{0}->length"), ("cmb_priorityqueue_length", "{0}->queue.heap_count")):
+            rv = [re.sub(re.escape(ln) + r"\((\w+)\)", lambda mm_: lw.format(mm_.group(1)), v_) for v_ in rv]
         r5.instance("%s returns %s" % (qn, rv))
         if rv != [want.format(f.params[0]["name"])]:
             rep.finding(r5, qn, "query", "%s returns %s" % (qn, rv), where=m.rel(f.where))
